@@ -143,12 +143,14 @@ struct dt_dt_s {
 				dt_sexy_t sexy:48;
 				dt_ssexy_t sxepoch:48;
 				struct {
+/* soft holds seconds across the whole range of dates (about 2^37),
+ * corr a number of leap seconds */
 #if BYTE_ORDER == BIG_ENDIAN
-					int32_t corr:16;
-					int32_t soft:32;
+					int64_t corr:8;
+					int64_t soft:40;
 #elif BYTE_ORDER == LITTLE_ENDIAN
-					int32_t soft:32;
-					int32_t corr:16;
+					int64_t soft:40;
+					int64_t corr:8;
 #else
 # warning unknown byte order
 #endif	/* BYTE_ORDER */
@@ -196,12 +198,14 @@ struct dt_dtdur_s {
 				/* for value+unit durations */
 				dt_ssexy_t dv:48;
 				struct {
+/* soft holds seconds across the whole range of dates (about 2^37),
+ * corr a number of leap seconds */
 #if BYTE_ORDER == BIG_ENDIAN
-					int32_t corr:16;
-					int32_t soft:32;
+					int64_t corr:8;
+					int64_t soft:40;
 #elif BYTE_ORDER == LITTLE_ENDIAN
-					int32_t soft:32;
-					int32_t corr:16;
+					int64_t soft:40;
+					int64_t corr:8;
 #else
 # warning unknown byte order
 #endif	/* BYTE_ORDER */
